@@ -207,9 +207,25 @@ Lemma run_new_sref : forall w nm meta msg,
 Proof. intros. unfold run_new, put. sr. Qed.
 Lemma run_spill_sref : forall w, stack_ref_has_parent w -> stack_ref_has_parent (fst (run_spill w)).
 Proof. intros. unfold run_spill, put. sr. Qed.
+Lemma log_extmods_first_sref : forall op0 op,
+  stack_ref_has_parent (op_world op0) -> log_extmods_first op0 = Some op ->
+  stack_ref_has_parent (op_world op).
+Proof.
+  intros op0 op Hs E. unfold log_extmods_first in E.
+  destruct (Nat.eqb _ _); [now injection E as <-|].
+  unfold log_external_mods in E. destruct (w_stack (op_world op0)); [|discriminate].
+  destruct (state_commit _ _ _) as [[objs' so']|] eqn:Ec; [|discriminate].
+  injection E as <-. apply state_commit_first_parent in Ec. cbn [op_world]. now apply sref_new.
+Qed.
+
 Lemma run_undo_like_sref : forall w s h m,
   stack_ref_has_parent w -> stack_ref_has_parent (fst (run_undo_like w s h m)).
-Proof. intros. unfold run_undo_like. sr. Qed.
+Proof.
+  intros w s h m H. unfold run_undo_like.
+  destruct (open_stack PRequire w) as [op0|] eqn:Eo; [apply (fun E => open_sref _ _ _ E H) in Eo|exact H].
+  destruct (log_extmods_first op0) as [op|] eqn:El; [|exact Eo].
+  apply (log_extmods_first_sref _ _ Eo) in El. sr.
+Qed.
 Lemma run_undo_sref : forall w n h, stack_ref_has_parent w -> stack_ref_has_parent (fst (run_undo w n h)).
 Proof. intros. unfold run_undo. destruct (n <? 1)%Z; [assumption|now apply run_undo_like_sref]. Qed.
 Lemma run_redo_sref : forall w n h, stack_ref_has_parent w -> stack_ref_has_parent (fst (run_redo w n h)).
